@@ -767,6 +767,29 @@ pub fn run_c07(opts: &Opts, out: &mut Emitter) {
         case.args.insert("s".into(), ArgValue::Int(1_757_611_999));
         out.case("corpus", || case_json(&case, observe(&case, true, None)));
     }
+    // redex sweep: every rewrite rule of the reducer met by every class of operand - a constant, a closed
+    // expression that folds, a pending parameter, an expression that folds once the argument is there, a
+    // substituted parameter, a NoOp wrapper - directly and behind every kind of container access
+    for (name, e) in redex_sweep() {
+        let mut t = empty_tx();
+        t.fees = fees_param();
+        t.validity = Some(tir::Validity { since: e.clone(), until: tir::Expression::None });
+        t.outputs.push(tir::Output {
+            address: tir::Expression::None,
+            datum: tir::Expression::None,
+            amount: tir::Expression::Assets(vec![tir::AssetExpr { policy: tir::Expression::None, asset_name: tir::Expression::None, amount: e }]),
+            optional: false,
+        });
+        let mut case = complete_case(&mut g, t);
+        case.args.insert("q".into(), ArgValue::Int(3));
+        let thorough = opts.thorough;
+        out.case("redex-sweep", || {
+            let s = if thorough { None } else { Some(&mut sampler) };
+            let mut v = case_json(&case, observe(&case, true, s));
+            v["shape"] = json!(name);
+            v
+        });
+    }
     for k in 0..opts.n {
         g.param_rate = 2 + (k as u64 % 5);
         g.malformed = false;
@@ -778,6 +801,52 @@ pub fn run_c07(opts: &Opts, out: &mut Emitter) {
             case_json(&case, observe(&case, true, s))
         });
     }
+}
+
+/// Integer-valued expressions for the redex sweep of C07: operand classes, containers, operators.
+pub fn redex_sweep() -> Vec<(String, tir::Expression)> {
+    use tir::{BuiltInOp as B, Coerce, Expression as E};
+    use tx3_tir::model::core::Type;
+    let q = || param("q", Type::Int);
+    let bi = |b: B| E::EvalBuiltIn(Box::new(b));
+    let palette: Vec<(&str, E)> = vec![
+        ("const", E::Number(5)),
+        ("folds", bi(B::Add(E::Number(1), E::Number(2)))),
+        ("pending", q()),
+        ("folds-after-args", bi(B::Add(q(), E::Number(1)))),
+        ("set", E::EvalParam(Box::new(tir::Param::Set(E::Number(4))))),
+        ("noop-pending", bi(B::NoOp(bi(B::Add(q(), E::Number(1)))))),
+        ("coerce-noop", E::EvalCoerce(Box::new(Coerce::NoOp(bi(B::Sub(q(), E::Number(1))))))),
+    ];
+    let containers: Vec<(&str, Box<dyn Fn(E) -> E>)> = vec![
+        ("list[0]", Box::new(move |x| E::EvalBuiltIn(Box::new(B::Property(E::List(vec![x, E::Number(9)]), E::Number(0)))))),
+        ("list[1]", Box::new(move |x| E::EvalBuiltIn(Box::new(B::Property(E::List(vec![E::Number(9), x]), E::Number(1)))))),
+        ("list[pending-sibling]", Box::new(move |x| E::EvalBuiltIn(Box::new(B::Property(E::List(vec![x, param("q", Type::Int)]), E::Number(0)))))),
+        ("struct.0", Box::new(move |x| E::EvalBuiltIn(Box::new(B::Property(E::Struct(tir::StructExpr { constructor: 0, fields: vec![x, E::Number(9)] }), E::Number(0)))))),
+        ("struct.1", Box::new(move |x| E::EvalBuiltIn(Box::new(B::Property(E::Struct(tir::StructExpr { constructor: 1, fields: vec![E::Bytes(vec![1]), x] }), E::Number(1)))))),
+        ("tuple.0", Box::new(move |x| E::EvalBuiltIn(Box::new(B::Property(E::Tuple(Box::new((x, E::Number(9)))), E::Number(0)))))),
+        ("tuple.1", Box::new(move |x| E::EvalBuiltIn(Box::new(B::Property(E::Tuple(Box::new((E::Number(9), x))), E::Number(1)))))),
+        ("map[k].1", Box::new(move |x| {
+            let m = E::Map(vec![(E::Number(0), x), (E::Number(1), E::Number(9))]);
+            E::EvalBuiltIn(Box::new(B::Property(E::EvalBuiltIn(Box::new(B::Property(m, E::Number(0)))), E::Number(1))))
+        })),
+        ("list[index-pending]", Box::new(move |x| E::EvalBuiltIn(Box::new(B::Property(E::List(vec![E::Number(9), E::Number(8), E::Number(7), x]), param("q", Type::Int)))))),
+    ];
+    let mut out: Vec<(String, E)> = vec![];
+    for (pn, p) in palette.iter() {
+        out.push((format!("{pn}"), p.clone()));
+        out.push((format!("negate({pn})"), bi(B::Negate(p.clone()))));
+        for (cn, c) in containers.iter() {
+            out.push((format!("{cn}<-{pn}"), c(p.clone())));
+            // and an operator on top of the access
+            out.push((format!("add({cn}<-{pn}, 1)"), bi(B::Add(c(p.clone()), E::Number(1)))));
+        }
+        for (pn2, p2) in palette.iter() {
+            out.push((format!("add({pn},{pn2})"), bi(B::Add(p.clone(), p2.clone()))));
+            out.push((format!("sub({pn},{pn2})"), bi(B::Sub(p.clone(), p2.clone()))));
+        }
+    }
+    out
 }
 
 /// C14: the staged pipeline on boundary-heavy and malformed templates, everything under
